@@ -8,24 +8,25 @@
     C06_identity_default_composite C06_identity_default_nonrigid
     C06_views_agree C06_views_agree_matrix
     C06_views_agree_points C06_views_agree_points_world C06_views_agree_disp C06_views_agree_disp_linear
-    C06_disp_linear_foreign_refuted
+    C06_views_agree_disp_nonrigid_partial
     C06_sequential_order C06_sequential_order_tensor
     C06_multilevel_sum C06_multilevel_members_unchanged
-    C06_warp C06_warp_value C06_nonrigid_grid_points_agree C06_nonrigid_grid_mode_refuted
-    C06_disp_nonrigid_other_convention_refuted
+    C06_warp C06_warp_value C06_nonrigid_grid_points_agree C06_warp_nonrigid
 
-  Repaired in /repo while this check was built, model and theorems follow the repaired code (positive theorems):
-  F-06a QuaternionRotation default (4602d00), F-06d HomogeneousTransform default (5a1bee8), F-06b MultiLevelTransform of
-  linear members (23e4cf3), F-08a batched translation matrix (8afe377), F-20a no rounding in CompositeTransform.disp
-  (1b0b194; `C06_views_agree_disp` is now about the code as it runs, not about `rnd = id`).
-  Still refuted / partial (known findings, FINDINGS_C06.md): F-06e `disp(grid)` of a plain linear transform on a grid of
-  another domain (`C06_disp_linear_foreign_refuted`; proved for the same domain and for every composite), F-06f
-  `ImageTransformer` evaluates non-rigid transforms with `grid=True` on any target lattice
-  (`C06_nonrigid_grid_mode_refuted`; `C06_warp` holds for every cube map, `C06_nonrigid_grid_points_agree` on the own
-  lattice), F-06g non-rigid `disp(grid)` with the other `align_corners` (`C06_disp_nonrigid_other_convention_refuted`).
-  The default rounding to 12 decimals inside `ImageTransformer.__init__` (`target.transform_points`) is exercised by the
-  correspondence only (theorem takes `rnd = id`); non-rigid `disp(grid)` on foreign grids of the same convention is covered
-  by correspondence + oracle only.
+  All defects found by this check (F-06a … F-06h, F-08a consequence, F-20a) were repaired in /repo while it was built; model and
+  theorems follow the repaired code and every former refutation is now a positive theorem:
+  F-06a/F-06d defaults (4602d00, 5a1bee8), F-06b multi-level sum (23e4cf3), F-08a batched translation matrix (8afe377), F-20a no
+  rounding in `CompositeTransform.disp` (1b0b194), F-06e `disp(grid)` of a linear transform on ANY grid (eb11384:
+  `C06_views_agree_disp_linear`), F-06g non-rigid `disp(grid)` is expressed in the cube axes of `grid` (8e0bb59:
+  `C06_views_agree_disp_nonrigid_partial`), F-06f `ImageTransformer` evaluates a non-rigid transform at the target points unless
+  they form the transform's lattice (c2e2ce2: `C06_warp_nonrigid`).
+  Partial: `C06_views_agree_disp_nonrigid_partial` covers the branch "same samples, other flag" and the foreign-grid branch
+  (sampled vector converted as a world vector; without the default rounding to 12 decimals of `ImageBatch.sample`); it does not
+  relate zero-padded sampling (`disp`) to border-padded sampling (`forward`) — they agree inside the sample hull, which is
+  covered by correspondence + oracle — nor the resize branch (`grid_reshape`, same grid and flag, other shape).
+  `C06_warp_nonrigid` covers the lattice flag `false` (any target grid) and `true` for the field's own lattice; a *resized*
+  lattice of the same domain (flag `true`, `F.interpolate` vs `grid_sample`) is covered by correspondence + oracle only.
+  The default rounding to 12 decimals in `ImageTransformer.__init__` is exercised by the correspondence (theorems: `rnd = id`).
 -/
 import Deepali.Proofs.Transforms
 import Deepali.Proofs.TransformsViews
@@ -292,31 +293,52 @@ theorem C06_views_agree_disp (T : Vec d K → Vec d K) {tg g : Grid d K} {n : Fi
           (fromGrid g (Axes.fromAlignCorners g.alignCorners) j) :=
   dispComposite_eq T ht hg hn h2 htc sameDomain hdom j
 
-/-- base-class `disp(grid)` of a plain linear transform (`affine_flow`): the same, *provided* `grid` covers the same
-    domain as the transform's grid (own grid, resized grid). -/
+/-- base-class `disp(grid)` of a plain linear transform on **any** grid — own, resized, foreign domain, either
+    `align_corners` flag: the value at grid point `j` is `T(x_j) − x_j` in the cube of that grid (`affine_flow` when the domains
+    coincide, conjugation through the grid maps otherwise; repair eb11384). -/
 theorem C06_views_agree_disp_linear (h : H d K) {tg g : Grid d K} {n : Fin d → Nat} (ht : tg.Valid) (hg : g.Valid)
-    (hn : g.HasSize n) (h2 : ∀ i, 2 ≤ n i) (htc : tg.CornersOK (transformAxes tg))
-    (hdom : ∀ p, fromGrid tg .world (toGrid tg (transformAxes tg) p)
+    (hn : g.HasSize n) (h2 : ∀ i, 2 ≤ n i) (htc : tg.CornersOK (transformAxes tg)) (sameDomain : Bool)
+    (hdom : sameDomain = true → ∀ p, fromGrid tg .world (toGrid tg (transformAxes tg) p)
         = fromGrid g .world (toGrid g (Axes.fromAlignCorners g.alignCorners) p)) (j : Vec d K) :
-    dispLinear h g.alignCorners n j
+    dispLinear h tg g n sameDomain j
       = (fromGrid g (Axes.fromAlignCorners g.alignCorners)
             (toGrid g .world (worldMap tg h.apply (fromGrid g .world j)))).sub
           (fromGrid g (Axes.fromAlignCorners g.alignCorners) j) := by
-  rw [← dispComposite_eq h.apply ht hg hn h2 htc true (fun _ => hdom) j]
-  rfl
+  rw [dispLinear_eq_dispComposite]
+  exact dispComposite_eq h.apply ht hg hn h2 htc sameDomain hdom j
+
+/-- non-rigid `disp(grid)` is expressed in the cube axes of `grid` (repair 8e0bb59). **Partial** (see header):
+    (1) `grid` has the samples of the transform's grid (on which `u` is stored) but the other flag: the stored vector
+    `u[j]`, a displacement in the transform's cube axes, re-expressed in the cube axes of `grid` (same index-space vector);
+    (2) `grid` is a foreign grid with either flag (no rounding): `u` sampled at the position of grid point `j` — expressed in
+    the cube of the field's grid — and converted *as a world-space vector* into the cube axes of `grid`. -/
+theorem C06_views_agree_disp_nonrigid_partial {tg fg g : Grid d K} {n gridN fgN : Fin d → Nat} (hg : g.Valid)
+    (hf : fg.Valid) (hgn : g.HasSize gridN) (h2 : ∀ i, 2 ≤ gridN i) (hfn : fg.HasSize fgN) (hf2 : ∀ i, 2 ≤ fgN i)
+    (u : VField d K) (pad : Padding) (j : Fin d → Nat) :
+    (tg.EqUpToAc g → g.alignCorners ≠ tg.alignCorners → ∀ rnd,
+      dispNonRigid tg fg g n gridN u true true rnd pad j
+        = fromGridLin g (Axes.fromAlignCorners g.alignCorners)
+            (toGridLin tg (transformAxes tg) (u (fun i => ((j i : Nat) : Int))))) ∧
+    dispNonRigid tg fg g n gridN u false false id pad j
+      = fromGridLin g (Axes.fromAlignCorners g.alignCorners) (toGridLin g .world (fromGridLin fg .world
+          (toGridLin fg (transformAxes tg) (sampleVField tg.alignCorners pad n u
+            (fromGrid fg (transformAxes tg) (toGrid fg .world (fromGrid g .world (fun i => ((j i : Nat) : K))))))))) :=
+  ⟨fun he hne rnd => dispNonRigid_other_convention hg hgn h2 he hne u rnd pad j,
+    dispNonRigid_foreign hg hf hgn h2 hfn hf2 u pad j⟩
 
 /-- **all views at once** for a linear transform with tensor `h` on its own grid `tg`: the displacement field at
     grid point `j` is `T(x_j) − x_j`, `matrix()` is the same map, and the world-coordinate point API is
     `cubeToWorld ∘ T ∘ worldToCube`. -/
 theorem C06_views_agree (h : H d K) {tg : Grid d K} {n : Fin d → Nat} (ht : tg.Valid) (hn : tg.HasSize n)
     (h2 : ∀ i, 2 ≤ n i) (j w : Vec d K) :
-    dispLinear h tg.alignCorners n j
+    dispLinear h tg tg n true j
         = (h.apply (fromGrid tg (transformAxes tg) j)).sub (fromGrid tg (transformAxes tg) j) ∧
     (∀ x, (matrixOf h).apply x = h.apply x) ∧
     transformPoints h.apply tg tg .world tg .world true true w = worldMap tg h.apply w := by
   have htc : tg.CornersOK (transformAxes tg) := hn.cornersOK h2 _
   refine ⟨?_, fun x => (C06_views_agree_matrix h x).1, ?_⟩
-  · simp only [dispLinear, coords_eq_fromGrid hn h2, transformAxes]
+  · simp only [dispLinear, dispLinearWith, dispCompositeMaps, if_true, affineFlowAt, coords_eq_fromGrid hn h2,
+      transformAxes]
   · exact C06_views_agree_points_world h.apply ht ht ht htc true true (fun _ => Grid.EqUpToAc.refl _)
       (fun _ => Grid.EqUpToAc.refl _) w
 
@@ -412,66 +434,37 @@ theorem C06_nonrigid_grid_points_agree (ac : Bool) (n : Fin d → Nat) (h2 : ∀
   have := (hin i)
   omega
 
+/-- **`ImageTransformer` with a non-rigid transform** (buffered field `u` of size `n`), for ANY target grid (repair
+    c2e2ce2): the transform is evaluated with `grid = isLattice`. If the flag is `false` — the mapped target coordinates are
+    not the transform's lattice — the field is sampled at the target point; if it is `true` and the target lattice is the
+    field's own lattice, the resized field is the field itself. In both cases the source image is sampled at
+    `src.worldToIndex (W_T (tgt.indexToWorld k))` with `T(x) = x + u(x)`. -/
+theorem C06_warp_nonrigid {tg tgt src : Grid d K} {tgN srcN tgtN n : Fin d → Nat} (u : VField d K) (ht : tg.Valid)
+    (hg : tgt.Valid) (hs : src.Valid) (htn : tg.HasSize tgN) (hgn : tgt.HasSize tgtN) (hsn : src.HasSize srcN)
+    (ht2 : ∀ i, 2 ≤ tgN i) (hg2 : ∀ i, 2 ≤ tgtN i) (hs2 : ∀ i, 2 ≤ srcN i) (sTT sTS : Bool)
+    (hTT : sTT = true → tgt.EqUpToAc tg) (hTS : sTS = true → tg.EqUpToAc src) (isLattice : Bool) (k : Fin d → Nat)
+    (hk : ∀ i, k i < tgtN i)
+    (hlat : isLattice = true → tgtN = n ∧
+      fromGrid tg (transformAxes tg) (toGrid tg .world (fromGrid tgt .world (fun i => ((k i : Nat) : K))))
+        = latticePoint tg.alignCorners n (fun i => (k i : Int))) (i : Fin d) :
+    unnormalize tg.alignCorners ((srcN i : Nat) : K)
+        (imageTransformerMemberCoord (nonRigidMember tg.alignCorners n u) isLattice tg tgt src tgtN sTT sTS id k i)
+      = toGrid src .world (worldMap tg (warpPoint tg.alignCorners n u) (fromGrid tgt .world (fun i => ((k i : Nat) : K)))) i := by
+  unfold imageTransformerMemberCoord
+  rw [C06_warp _ ht hg hs htn hgn hsn ht2 hg2 hs2 sTT sTS hTT hTS]
+  congr 1
+  simp only [worldMap]
+  congr 2
+  cases isLattice with
+  | false => rfl
+  | true =>
+      obtain ⟨hn, hY⟩ := hlat rfl
+      subst hn
+      rw [hY]
+      simp only [imageTransformerLat, if_true]
+      exact (C06_nonrigid_grid_points_agree tg.alignCorners tgtN hg2 u k hk).1
+
 end ordered2
-
-/-- the statement "`disp(grid)` of a linear transform describes the world map on any grid" … -/
-def C06_disp_linear_foreign_Statement : Prop :=
-  ∀ (h : H 1 ℚ) (tg g : Grid 1 ℚ) (j : Vec 1 ℚ),
-    dispLinear h g.alignCorners (fun _ => 3) j
-      = (fromGrid g (Axes.fromAlignCorners g.alignCorners)
-            (toGrid g .world (worldMap tg h.apply (fromGrid g .world j)))).sub
-          (fromGrid g (Axes.fromAlignCorners g.alignCorners) j)
-
-/-- … is false for the base-class `disp` (`affine_flow` applies the matrix, which lives in the cube of the
-    transform's grid, to the cube coordinates of `grid`): a translation by one cube unit of a 3-sample grid with unit
-    spacing is half a cube unit of a 3-sample grid with spacing 2, but `disp` reports 1. -/
-theorem C06_disp_linear_foreign_refuted : ¬ C06_disp_linear_foreign_Statement := by
-  intro hall
-  have := hall (.trans (fun _ => 1)) ⟨fun _ => 3, fun _ => 0, fun _ => 1, fun _ _ => 1, true⟩
-    ⟨fun _ => 3, fun _ => 0, fun _ => 2, fun _ _ => 1, true⟩ (fun _ => 1)
-  have h0 := congrFun this 0
-  simp [dispLinear, worldMap, transformAxes, Axes.fromAlignCorners, fromGrid, toGrid, coordAt, H.apply, Vec.add, Vec.sub,
-    Grid.sizeTensor, Grid.affine, Grid.inverseAffine, Grid.origin, Grid.originOffset, Mat.mul, Mat.diag, Mat.mulVec,
-    Mat.transpose, sumFin, HasFloor.ceil] at h0
-  norm_num at h0
-
-/-- the statement "`forward(points, grid=True)` — what `ImageTransformer` always calls — moves every point like
-    `forward(points)`", for point lattices that are *not* the transform's own lattice … -/
-def C06_nonrigid_grid_mode_Statement : Prop :=
-  ∀ (ac : Bool) (n : Fin 1 → Nat) (u : VField 1 ℚ) (l : Lat 1) (x : Vec 1 ℚ),
-    (nonRigidMember ac n u).forward (some l) x = (nonRigidMember ac n u).forward none x
-
-/-- … is false (F-06f): `warp_grid` adds the field *resized to the lattice shape* whatever the coordinates of the
-    points are. Field `u = (0, 1/2, 0)` on 3 samples; the middle point of a 3-point lattice located at `x = −1` (a target
-    grid of another domain) is moved by `u[1] = 1/2`, while the field at `x = −1` is `u[0] = 0`. -/
-theorem C06_nonrigid_grid_mode_refuted : ¬ C06_nonrigid_grid_mode_Statement := by
-  intro h
-  have := congrFun (h true (fun _ => 3) (fun idx _ => if idx 0 = 1 then 1 / 2 else 0) ⟨fun _ => 3, fun _ => 1⟩
-    (fun _ => -1)) 0
-  simp [nonRigidMember, Member.forward, warpGridPoint, warpPoint, sampleVField, gridSampleLin, interpolateLin,
-    interpolateSrc, interpLin, extBorder, extZero, clampIdx, clampCoord, unnormalize, consIdx, tailVec, Vec.add,
-    HasFloor.floor] at this
-  norm_num [Int.floor_eq_iff] at this
-
-/-- the statement "`disp(grid)` of a non-rigid transform is expressed in the cube of `grid`" for a grid with the same
-    samples but the other `align_corners` convention … -/
-def C06_disp_nonrigid_other_convention_Statement : Prop :=
-  ∀ (tg g : Grid 1 ℚ) (u : VField 1 ℚ) (j : Fin 1 → Nat), tg.EqUpToAc g →
-    dispNonRigid tg tg g (fun _ => 3) (fun _ => 3) u true true id .zeros j
-      = fromGridLin g (Axes.fromAlignCorners g.alignCorners)
-          (toGridLin tg (transformAxes tg) (u (fun i => ((j i : Nat) : Int))))
-
-/-- … is false (F-06g): `FlowFields.sample` returns the field unchanged for an equal grid (`Grid.__eq__` ignores
-    `align_corners`), so a displacement of 1/2 in CUBE_CORNERS units of a 3-sample grid (half a sample) is reported as
-    1/2 in CUBE units (three quarters of a sample) instead of 1/3. -/
-theorem C06_disp_nonrigid_other_convention_refuted : ¬ C06_disp_nonrigid_other_convention_Statement := by
-  intro h
-  have := congrFun (h ⟨fun _ => 3, fun _ => 0, fun _ => 1, fun _ _ => 1, true⟩
-    ⟨fun _ => 3, fun _ => 0, fun _ => 1, fun _ _ => 1, false⟩ (fun _ _ => 1 / 2) (fun _ => 1)
-    ⟨rfl, rfl, rfl, rfl⟩) 0
-  simp [dispNonRigid, dispNonRigidWith, transformAxes, Axes.fromAlignCorners, fromGridLin, toGridLin, Grid.sizeTensor,
-    HasFloor.ceil] at this
-  norm_num at this
 
 /-! ## Non-vacuity -/
 
@@ -492,5 +485,22 @@ example : seqForward [.linear (eulerTensor2 false ((3 : ℚ) / 5) (4 / 5)), .lin
   norm_num
 
 example : allLinear [Member.nonlin (fun x : Vec 1 ℚ => x) (fun _ x => x), .linear (.aff Mat.one)] = false := rfl
+
+/-- the hypotheses of `C06_views_agree_disp_nonrigid_partial` (1) and of `C06_warp_nonrigid` with the lattice flag `true` are
+    met: the grid with the samples of `exampleGrid` and the other flag, and — target = transform grid — target sample `k`
+    expressed in the transform's cube *is* lattice point `k`. -/
+example : (exampleGrid.EqUpToAc { exampleGrid with alignCorners := false } ∧
+      ({ exampleGrid with alignCorners := false } : Grid 2 ℚ).alignCorners ≠ exampleGrid.alignCorners) ∧
+    ∀ k : Fin 2 → Nat,
+      fromGrid exampleGrid (transformAxes exampleGrid)
+          (toGrid exampleGrid .world (fromGrid exampleGrid .world (fun i => ((k i : Nat) : ℚ))))
+        = latticePoint exampleGrid.alignCorners ![5, 4] (fun i => (k i : Int)) := by
+  refine ⟨⟨⟨rfl, rfl, rfl, rfl⟩, by simp [exampleGrid]⟩, ?_⟩
+  intro k
+  rw [toGrid_fromGrid exampleGrid_valid .world (cornersOK_world _)]
+  have := coords_eq_fromGrid exampleGrid_hasSize (by intro i; fin_cases i <;> simp) exampleGrid.alignCorners
+    (fun i => ((k i : Nat) : ℚ))
+  simp only [transformAxes, ← this]
+  funext i; simp [latticePoint]
 
 end Deepali
